@@ -1,11 +1,18 @@
+mod chains;
+mod construct;
 mod iter;
+mod overlap;
+mod util;
 
 fn main() {
     let cmd = std::env::args().nth(1).unwrap_or_default();
     match cmd.as_str() {
         "iter" => iter::main_iter(),
+        "overlap" => overlap::main_overlap(),
+        "construct" => construct::main_construct(),
+        "chains" => chains::main_chains(),
         _ => {
-            eprintln!("usage: vh-tensor <iter|...> [options]");
+            eprintln!("usage: vh-tensor <iter|overlap|construct|chains|layout> [options]");
             std::process::exit(2);
         }
     }
